@@ -35,7 +35,8 @@ func (v otrV3) isFragmented(data []byte) bool {
 }
 
 func parseItag(s []byte) (uint32, error) {
-	v, err := strconv.ParseInt(string(s), 16, 0)
+	// an instance tag is an unsigned 32 bit number: no sign, no more than 32 bits
+	v, err := strconv.ParseUint(string(s), 16, 32)
 	if err != nil {
 		return 0, err
 	}
